@@ -225,7 +225,22 @@ func layoutPart(c *run.Ctx) {
 	}
 	ep.F.Heal(w)
 	w.Broker.ReleaseHeld()
+	reportModified := func() bool {
+		w.Mu.Lock()
+		defer w.Mu.Unlock()
+		w.Store.CheckPristine()
+		for _, m := range w.Store.Modified {
+			c.Violate("stored-record-modified-in-place", m, nil)
+			return true
+		}
+		return false
+	}
 	if st, report := ep.awaitOrDiagnose("publishes complete", d.AllClosed); st != "" {
+		if reportModified() {
+			d.CloseAndWait()
+			c.Spoiled()
+			return
+		}
 		c.Inconclusive("layout episode did not complete: " + firstLine(report))
 		c.Spoiled()
 		return
@@ -243,6 +258,9 @@ func layoutPart(c *run.Ctx) {
 			}
 			wirePackets[string(raw)] = true
 		}
+	}
+	if w.Store.AliasLoad {
+		c.Count("episodes_on_aliasing_store", 1)
 	}
 	w.Store.CheckPristine()
 	for _, m := range w.Store.Modified {
